@@ -20,6 +20,9 @@ def AND(
     for logical in logicals:
         val = logical()
         for item in xl.flatten([val]):
+            if isinstance(item, xlerrors.ExcelError):
+                # Errors are values that propagate.
+                return item
             if func_xltypes.Blank.is_blank(item):
                 continue
             if not bool(item):
@@ -56,6 +59,9 @@ def OR(
     for logical in logicals:
         val = logical()
         for item in xl.flatten([val]):
+            if isinstance(item, xlerrors.ExcelError):
+                # Errors are values that propagate.
+                return item
             if func_xltypes.Blank.is_blank(item):
                 continue
             if bool(item):
@@ -78,7 +84,11 @@ def IF(
     """
     # Use delayed evaluation to only evaluate the true or false value but not
     # both.
-    selected = value_if_true if logical_test() else value_if_false
+    condition = logical_test()
+    if isinstance(condition, xlerrors.ExcelError):
+        # Errors are values that propagate.
+        return condition
+    selected = value_if_true if condition else value_if_false
     # An omitted branch is the plain default value, not an expression.
     return selected() if callable(selected) else selected
 
@@ -91,7 +101,11 @@ def NOT(logical: func_xltypes.XlExpr) -> func_xltypes.XlBoolean:
     https://support.microsoft.com/en-us/office/
         not-function-9cfc6011-a054-40c7-a140-cd4ba2d87d77
     """
-    return not bool(logical())
+    value = logical()
+    if isinstance(value, xlerrors.ExcelError):
+        # Errors are values that propagate.
+        return value
+    return not bool(value)
 
 
 @xl.register()
